@@ -71,8 +71,16 @@ def ensure_driver():
         raise BuildFailed("mdkfacts driver failed to build")
 
 
+def driver_hash():
+    """facts depend on the driver that produced them: a changed driver must not reuse cached facts"""
+    h = hashlib.sha256()
+    for p in sorted(glob.glob(os.path.join(DRIVER_DIR, "src", "*.rs"))):
+        h.update(open(p, "rb").read())
+    return h.hexdigest()[:8]
+
+
 def facts_dir(config="mip04", repo=None):
-    return os.path.join(CACHE, "facts", tree_hash(repo), config)
+    return os.path.join(CACHE, "facts", tree_hash(repo) + "-" + driver_hash(), config)
 
 
 def extract(config="mip04", repo=None, quiet=False):
